@@ -24,6 +24,12 @@ REASONS = {
  'C20-m5': "`strptime` ignores a parsed `%s`: calendar library semantics",
  'C14-m9': "YAML reader no longer accepts `+` in an exponent: number grammar of the reader",
  'C05-m7': "statement order in `bytes_splice` (range taken after the buffer grew): value-level",
+ 'C13-m8': "regex byte-to-character offset guard compares a character index with a byte offset: value-level (panics, so also C05)",
+ 'C16-m7': "a new cache of data files keyed by the written name: added state whose key is wrong",
+ 'C16-m8': "a repeated include keeps its first position in the shadowing order: list manipulation of the loader",
+ 'C16-m9': "`?` inside a loop returns from the whole function where the closure version skipped one entry: control flow of a metadata scan",
+ 'C20-m7': "`todate` redefined through strftime in defs.jq: jq-level definition",
+ 'C20-m9': "`fromdate` parses a civil date-time first and drops a numeric offset: calendar library semantics",
  'C05-m8': "a swapped test lets an unparsable text into `Num::Dec`: the invariant of the decimal text is not computed",
 }
 rows = []
